@@ -143,8 +143,11 @@ def _query(rng: Any, n_rows: int, dict_cursor: bool, hz: dict[str, bool]) -> dic
             # text that only looks like statement structure: a semicolon / comment marker inside a literal or a quoted alias
             lit, alias = rng.choice([("'semi;colon'", '"k;v"'), ("'dash--dash'", "LIT1"), ("'a;b;c'", "LIT2"), ("'/* x */'", '"al;ias"')])
             it = {"expr": f"{lit} AS {alias}", "col": None, "name": alias.strip('"') if alias.startswith('"') else alias, "cls": "str", "tc": (2, None, None)}
-        elif r < 0.9:
+        elif r < 0.86:
             it = {"expr": "ID + 1", "col": None, "name": None, "cls": "int", "tc": (0, None, 0)}
+        elif r < 0.93:
+            # un-aliased expressions whose engine-made name depends on how the SQL text is rendered
+            it = {"expr": rng.choice(["ROW_NUMBER() OVER (ORDER BY ID)", "DATEDIFF(day, '2020-01-01'::DATE, '2020-01-03'::DATE)", "COUNT(*) OVER (PARTITION BY ID ORDER BY ID)"]), "col": None, "name": None, "cls": "int", "tc": None}
         else:
             it = {"expr": "UPPER(S)", "col": None, "name": None, "cls": "str", "tc": (2, None, None)}
         nm = it["name"] if it["name"] is not None else "?" + it["expr"]
@@ -398,7 +401,7 @@ class Machine:
             if k == "execute":
                 ref = self.reference(op["sql"], op.get("params"))
                 self.state[key] = {"kind": "select", "items": op["items"], "ids": op["ids"], "ref": ref, "idx": 0, "ncol": len(op["items"]), "dict": op.get("dict", False),
-                                   "arraysize": st["arraysize"] if st else 1, "foreign_since_execute": False, "sibling_since_execute": False, "handed": 0, "sql": op["sql"], "star": op.get("star", False)}
+                                   "arraysize": st["arraysize"] if st else 1, "foreign_since_execute": False, "sibling_since_execute": False, "handed": 0, "sql": op["sql"], "star": op.get("star", False), "has_params": op.get("params") is not None}
                 if op.get("dup"):
                     self.probe("dup_column_names")
             else:
@@ -610,6 +613,19 @@ class Machine:
             if len(desc) != st["ncol"]:
                 self.flag("C06", "description-width/" + ("star-after-foreign-ddl" if st.get("star") and st.get("alter_since_execute") else "select"), "one description entry per result column", {**brief, "expected": st["ncol"], "observed": names, "statement": st["sql"]})
                 return
+            unnamed = [j for j, it in enumerate(st["items"]) if it["name"] is None]
+            if unnamed and not st.get("has_params") and not (st.get("foreign_since_execute") or st.get("sibling_since_execute")):
+                # an un-aliased expression is named by the engine: description must use the very name describe(q) reports
+                with self.sim.quiet():
+                    try:
+                        twin_names = [x.name for x in self.world.fs.connect(database=DB, schema=SC).cursor().describe(st["sql"])]
+                    except BaseException:  # noqa: BLE001
+                        twin_names = None
+                if twin_names is not None and len(twin_names) == len(desc):
+                    for j in unnamed:
+                        if desc[j].name != twin_names[j]:
+                            self.flag("C06", "description-name/unaliased-expression", "description and describe(q) name an un-aliased expression alike", {**brief, "column": j, "description": desc[j].name, "describe": twin_names[j], "statement": st["sql"]})
+                            return
             for j, it in enumerate(st["items"]):
                 d = desc[j]
                 if it["name"] is not None and d.name != it["name"]:
